@@ -55,6 +55,14 @@ CHECKS = {
           "(thorough) over a scalar and a 2-element register rendered through every access path, plus random histories.", "DESIGN.md §6 C06"),
    note="Trusted: Coq kernel; extraction; glue; hooks H1-H3. Only the qubit-relevant part of the evaluator is modelled.",
    technique="Coq proof (state-machine invariant) + exhaustive-small extraction-based correspondence"),
+ "C15": dict(
+   level=("proof", "Coq theorems (axiom-free) on a model of lexer.cpp for every source string: tokens and skipped trivia concatenate to the "
+          "source, trivia is only whitespace and // comments, every token's reported line/column is the position of its first character "
+          "(computed independently by scanning from the start) and the source continues there with the token's text, and the lexer terminates. "
+          "Tied by all ordered pairs (thorough: also triples) of ~80 atoms without separators plus random byte sequences: token lists and "
+          "error positions compared with the extracted model, and the property checked directly on the implementation's output.", "DESIGN.md §6 C15"),
+   note="Trusted: Coq kernel; extraction; glue (public Lexer API). C-locale character classes assumed.",
+   technique="Coq proof (structural/fuelled recursion, prefix-position invariant) + extraction-based correspondence + direct positional oracle"),
  "C20": dict(
    level=("proof", "13 Coq theorems (axiom-free) over a model of parseSemVer/compareSemVer/hasLatest/the --update decision/parseChecksum/"
           "the 72h notice throttle, for all strings, all checksums.txt contents and all invocation histories; the model is tied to "
